@@ -212,6 +212,7 @@ func (p *Policy) sanitize(r io.Reader, w io.Writer) error {
 	if !ok {
 		buff = &asStringWriter{w}
 	}
+	buff = verifWriter(r, buff)
 
 	var (
 		skipElementContent       bool
@@ -220,6 +221,9 @@ func (p *Policy) sanitize(r io.Reader, w io.Writer) error {
 		closingTagToSkipStack    []string
 		mostRecentlyStartedToken string
 	)
+	defer func() {
+		verifEnd(r, skipElementContent, skippingElementsCount, skipClosingTag, closingTagToSkipStack, mostRecentlyStartedToken)
+	}()
 
 	tokenizer := html.NewTokenizer(r)
 	for {
@@ -235,6 +239,7 @@ func (p *Policy) sanitize(r io.Reader, w io.Writer) error {
 		}
 
 		token := tokenizer.Token()
+		verifTok(r, &token, skipElementContent, skippingElementsCount, skipClosingTag, closingTagToSkipStack, mostRecentlyStartedToken)
 		switch token.Type {
 		case html.DoctypeToken:
 
@@ -287,7 +292,9 @@ func (p *Policy) sanitize(r io.Reader, w io.Writer) error {
 				aps = aa
 			}
 			if len(token.Attr) != 0 {
+				verifAttrsIn(r, token.Data, token.Attr)
 				token.Attr = p.sanitizeAttrs(token.Data, token.Attr, aps)
+				verifAttrsOut(r, token.Attr)
 			}
 
 			if len(token.Attr) == 0 {
@@ -397,7 +404,9 @@ func (p *Policy) sanitize(r io.Reader, w io.Writer) error {
 			}
 
 			if len(token.Attr) != 0 {
+				verifAttrsIn(r, token.Data, token.Attr)
 				token.Attr = p.sanitizeAttrs(token.Data, token.Attr, aps)
+				verifAttrsOut(r, token.Attr)
 			}
 
 			if len(token.Attr) == 0 && !p.allowNoAttrs(token.Data) {
